@@ -194,6 +194,18 @@ async fn send_chunks(io: &mut dyn PeerIo, chunks: Vec<Vec<u8>>, pause_after_firs
     true
 }
 
+/// "early": how much of the hello an SSH server writes before it answers the subsystem request
+fn early_bytes(case: &Value) -> usize {
+    let total: usize = hello_stream().parts.iter().map(|p| p.len()).sum();
+    match case["early"].as_str().unwrap_or("") {
+        "all" => total,
+        "one-byte" => 1,
+        "half" => total / 2,
+        "all-but-one" => total - 1,
+        _ => 0,
+    }
+}
+
 /// Run the peer side of one case.
 async fn run_peer(io: &mut dyn PeerIo, case: &Value) {
     let kind = |s: &str| match s {
@@ -204,7 +216,17 @@ async fn run_peer(io: &mut dyn PeerIo, case: &Value) {
     let hello = hello_stream();
     let hclose = case["hello_close"].as_str().unwrap_or("none");
     let hupto = if hclose == "none" { None } else { close_at(&case["hello_close_at"]) };
-    let chunks = hello.chunks(&usizes(&case["hello_cuts"]), hupto);
+    let mut chunks = hello.chunks(&usizes(&case["hello_cuts"]), hupto);
+    // (SSH) the first bytes of the hello have gone out already, ahead of the answer to the subsystem request
+    let mut skip = early_bytes(case);
+    while skip > 0 && !chunks.is_empty() {
+        let n = skip.min(chunks[0].len());
+        chunks[0].drain(..n);
+        skip -= n;
+        if chunks[0].is_empty() {
+            chunks.remove(0);
+        }
+    }
     if !send_chunks(io, chunks, 0).await {
         return;
     }
@@ -354,44 +376,49 @@ async fn serve_tls(case: Value, acceptor: tokio_rustls::TlsAcceptor) -> SocketAd
     let listener = TcpListener::bind(("127.0.0.1", 0)).await.unwrap();
     let addr = listener.local_addr().unwrap();
     drop(tokio::spawn(async move {
-        let Ok((tcp, _)) = listener.accept().await else { return };
-        let _ = tcp.set_nodelay(true);
-        let stage = case["hello_close"].as_str().unwrap_or("none").to_string();
-        if stage == "pre-tls" || stage == "tls-accept" {
-            drop(tcp);
-            return;
-        }
-        if stage == "tls-greeting" || stage == "tls-greeting-reset" {
-            // the peer goes away in the middle of the TLS handshake: ClientHello read, nothing answered
-            let mut tcp = tcp;
-            let mut b = [0u8; 4096];
-            let _ = tcp.read(&mut b).await;
-            if stage == "tls-greeting-reset" {
-                let _ = tcp.set_linger(Some(Duration::ZERO));
+        // a server that is in one of the set-up states treats every new connection the same way (a client that knocks
+        // again gets the same answer)
+        loop {
+            let Ok((tcp, _)) = listener.accept().await else { return };
+            let _ = tcp.set_nodelay(true);
+            let stage = case["hello_close"].as_str().unwrap_or("none").to_string();
+            if stage == "pre-tls" || stage == "tls-accept" {
+                drop(tcp);
+                continue;
             }
-            drop(tcp);
+            if stage == "tls-greeting" || stage == "tls-greeting-reset" {
+                // the peer goes away in the middle of the TLS handshake: ClientHello read, nothing answered
+                let mut tcp = tcp;
+                let mut b = [0u8; 4096];
+                let _ = tcp.read(&mut b).await;
+                if stage == "tls-greeting-reset" {
+                    let _ = tcp.set_linger(Some(Duration::ZERO));
+                }
+                drop(tcp);
+                continue;
+            }
+            if stage == "tls-garbage" {
+                // not a TLS server at all: answers the ClientHello with a text banner and hangs up
+                let mut tcp = tcp;
+                let mut b = [0u8; 4096];
+                let _ = tcp.read(&mut b).await;
+                let _ = tcp.write_all(b"220 this is not a TLS server\r\n").await;
+                let _ = tcp.flush().await;
+                tokio::time::sleep(Duration::from_millis(PAUSE_MS)).await;
+                drop(tcp);
+                continue;
+            }
+            if stage == "tls-silent-then-close" {
+                // accepts the connection, says nothing for a while, then hangs up
+                tokio::time::sleep(Duration::from_millis(300)).await;
+                drop(tcp);
+                continue;
+            }
+            let Ok(stream) = acceptor.accept(tcp).await else { return };
+            let mut peer = TlsPeer { stream: Some(stream), inbuf: Vec::new() };
+            run_peer(&mut peer, &case).await;
             return;
         }
-        if stage == "tls-garbage" {
-            // not a TLS server at all: answers the ClientHello with a text banner and hangs up
-            let mut tcp = tcp;
-            let mut b = [0u8; 4096];
-            let _ = tcp.read(&mut b).await;
-            let _ = tcp.write_all(b"220 this is not a TLS server\r\n").await;
-            let _ = tcp.flush().await;
-            tokio::time::sleep(Duration::from_millis(PAUSE_MS)).await;
-            drop(tcp);
-            return;
-        }
-        if stage == "tls-silent-then-close" {
-            // accepts the connection, says nothing for a while, then hangs up
-            tokio::time::sleep(Duration::from_millis(300)).await;
-            drop(tcp);
-            return;
-        }
-        let Ok(stream) = acceptor.accept(tcp).await else { return };
-        let mut peer = TlsPeer { stream: Some(stream), inbuf: Vec::new() };
-        run_peer(&mut peer, &case).await;
     }));
     addr
 }
@@ -514,6 +541,12 @@ impl russh::server::Handler for SshConn {
                 return Ok((self, session));
             }
             _ => {}
+        }
+        let early = early_bytes(&self.case);
+        if early > 0 {
+            // the subsystem is started (and writes) before the request is answered
+            let hello: Vec<u8> = hello_stream().parts.concat();
+            session.data(channel, russh::CryptoVec::from_slice(&hello[..early]));
         }
         session.channel_success(channel);
         let (tx, rx) = mpsc::unbounded_channel();
